@@ -43,6 +43,7 @@ PROPS['C12'] = dict(
 )
 
 PROPS['C15'] = dict(
+    bounded_quick=[('checker', 'files written by the pinned release hold arbitrary values in the bytes the layout leaves unassigned (padding behind the page type and the entry kind); that the current reader ignores them is a statement about every file of the old writer, which no golden file is available for: cex/checker.rs scribbles over all padding bytes of healthy files and requires identical contents, check() and a further commit')],
     level='proof',
     units=['meta', 'db', 'open', 'writenode'],
     kani_quick=['layout', 'frombuf'],
